@@ -20,6 +20,7 @@ dialects and capabilities and every sufficiently large call depth.
   by the harness's enum-value stream, not translated).
 * `findClass(name, registry)` returns the class registered under `name` (never fails); the image identifies the name
   with the class object it denotes: `foreignKey` holds `otherV` (an object with `sqlmeta.table / idName / idType`).
+* `MaxdbConnection.createSequenceName(table)` (not translated: it reads a module constant) returns `table[:28] + '_SEQ'`.
 * `connection.can_use_microseconds()` / `can_use_max_types()` read the capability record `Caps`; `self.createSQL(soClass)`
   (`sqlmeta.createSQL`, not modelled) returns `[]`; `join.hasIntermediateTable()` reads a stored flag.
 * `'%i' % n` = `natDigits` (hand model of decimal rendering); `str.lower()` / `str.upper()` = the ASCII maps `lowerC` /
@@ -88,6 +89,9 @@ def extMethX (v : Val) (m : String) (args : List Val) : R Val :=
     | _ => .stuck)
   else if m = "createSQL" then (match args with
     | [_] => .ok (.list [])
+    | _ => .stuck)
+  else if m = "createSequenceName" then (match args with      -- MaxDB: `'%s_SEQ' % table[:28]`
+    | [.str t] => .ok (.str (t.take 28 ++ [95, 83, 69, 81]))
     | _ => .stuck)
   else .stuck
 
@@ -191,7 +195,7 @@ def ownerV (table : Str) : Val :=
 def commonFields (st : Style) (table : Str) (conn0 : Val) (col : Col) : List (String × Val) :=
   [("dbName", .str (col.db st)), ("notNone", .bool col.notNone), ("alternateID", .bool col.alternateID),
    ("unique", .bool (col.unique.getD col.alternateID)), ("defaultSQL", optStr col.defaultSQL),
-   ("customSQLType", .none), ("connection", conn0), ("soClass", ownerV table)]
+   ("customSQLType", .none), ("connection", conn0), ("soClass", ownerV table), ("name", .str col.attr)]
 
 /-- a column object -/
 def colV (T : Tables) (st : Style) (table : Str) (conn0 : Val) (col : Col) : Val :=
